@@ -38,7 +38,21 @@ def main(argv=None):
     except AnalysisError as e:
         print('ANALYSIS-ERROR property=%s kind=%s %s' % (pid, e.kind, e.msg))
         return 2
+    # helpers that do not exist on the reference tree are walked in place of their call (extract-method refactorings)
+    from . import sx
+    try:
+        with open(os.path.join(os.path.dirname(os.path.abspath(__file__)), 'known_functions.txt')) as fh:
+            known = set(fh.read().split())
+    except OSError:
+        known = None
+    sx.NEW_HELPERS.clear()
+    if known is not None:
+        for q, fi in prog.functions.items():
+            if q not in known and fi.parent is None:
+                sx.NEW_HELPERS[(fi.cls.qual if fi.cls is not None else fi.module.name, fi.name)] = fi
     ctx = Ctx(prog, pid, a.tier, seed)
+    if sx.NEW_HELPERS:
+        ctx.note('*', 'functions unknown on the reference tree, walked in place of their calls: ' + ', '.join(sorted(fi.qual for fi in sx.NEW_HELPERS.values())))
     only = None
     if a.replay:
         try:
